@@ -59,7 +59,7 @@ def fault_entry(rng, kind, tab, used):
 
 def run(out: Outcome, drv):
     sc.install_probes()
-    n = 30 if out.tier == "quick" else 600
+    n = 90 if out.tier == "quick" else 600
     out.rule = ("generated tables and configs with 1..3 healthy tests per stream over 1..3 contexts; 1..3 failing entries of every kind "
                 "(unknown module, unknown test, parameters the function rejects, required depth / position input not supplied, stream id "
                 "absent from the data, a callee that raises) inserted at random positions of random contexts; run on every front end; the "
